@@ -366,3 +366,34 @@ def run(ctx):
             ctx.violation('equality', 'generic', i, {'G[int](5)==Sub(5)': r.brief(), 'Sub(5)==G[int](5)': r2.brief()}, mech='eq:subclass-of-parametrisation-is-another-class')
 
     drive.for_each_case(ctx, 'generic', 40, body_generic, gen=lambda c, r: Ty('int'))
+
+    # fields the cube does not have: an Optional field replaced by None (None is a value, not "no change"), and an init=False field
+    # that nothing has filled in yet (a frozen instance refuses its first assignment like any other)
+    def body_special(i, rng, ty, T):
+        frozen = rng.choice((True, True, False))
+        eq = rng.random() < 0.8
+        ns = {'__annotations__': {'a': int, 'opt': t.Optional[int], 'name': t.Optional[str], 'z': int}, 'opt': 5, 'name': 'n',
+              'z': env.pfield(init=False), '__module__': __name__}
+        cls = type(f"VS{next(_serial)}", (env.PaneBase,), ns, frozen=frozen, eq=eq)
+        inst = cls(1) if rng.random() < 0.5 else cls(1, opt=7)
+        ctx.count('special_instances')
+        wit = {'frozen': frozen, 'instance': short(inst), 'set_record': short(sorted(inst.__pane_set__))}
+        for fname in ('opt', 'name'):
+            o = observe(inst.__replace__, **{fname: None})
+            ctx.count('replace_checks')
+            if o.kind != 'value' or getattr(o.val, fname) is not None or fname not in o.val.__pane_set__ or o.val.a != 1:
+                ctx.violation('replace', 'special', i, {**wit, 'change': {fname: None}, 'result': o.brief(),
+                                                        'result_set_record': short(sorted(getattr(o.val, '__pane_set__', ()))) if o.kind == 'value' else None},
+                              mech='replace:None-is-a-value')
+                return
+        st = observe(setattr, inst, 'z', 3)
+        ctx.count('frozen_checks')
+        if frozen and (st.kind == 'value' or hasattr(inst, 'z') and getattr(inst, 'z', None) == 3):
+            ctx.violation('frozen', 'special', i, {**wit, 'setattr(z)': st.brief()}, mech='frozen:first-assignment-of-uninitialised-field-allowed')
+            return
+        if not frozen and (st.kind != 'value' or inst.z != 3):
+            ctx.violation('frozen', 'special', i, {**wit, 'setattr(z)': st.brief()}, mech='non-frozen:assignment-refused')
+            return
+        ctx.case(('special', frozen, eq), nontrivial=True)
+
+    drive.for_each_case(ctx, 'special', 60, body_special, gen=lambda c, r: Ty('int'))
